@@ -432,7 +432,7 @@ var propSequence = &kit.Prop[SeqCase]{
 		"served-shrunk-served-again": 0.05, "served-grown-served-again": 0.05, "built-from-json-config": 0.1},
 	Gen: func(t *rapid.T) SeqCase {
 		c := SeqCase{
-			Who:    rapid.SampledFrom([]string{"static", "body"}).Draw(t, "who"),
+			Who:     rapid.SampledFrom([]string{"static", "body"}).Draw(t, "who"),
 			Mode:    rapid.SampledFrom([]string{"batch", "batch", "batch2", "conns", "rewrite"}).Draw(t, "mode"),
 			Rounds:  rapid.IntRange(3, 6).Draw(t, "rounds"),
 			ViaJSON: rapid.IntRange(0, 3).Draw(t, "via_json") == 2,
